@@ -129,6 +129,7 @@ LAYOUTS = (
     + [("expr", "lead", j) for j in (1, 2)]
     + [("exprf", "code", j) for j in (0, 1, 2)]
     + [("filtarg", "code", j) for j in (0, 1, 2)]
+    + [("filtarg", "nlbefore", 1), ("filtarg", "nlafter", 1), ("filtarg", "nlafter", 2)]
     + [(k, "code", j) for k in ("if", "for", "while") for j in (0, 1, 2)]
     # a continued '% elif' line is not enumerated: Mako generates a module with a SyntaxError for it
     # (PythonPrinter does not recognise the continued line as an unindentor), so it is not a usable template
@@ -153,6 +154,7 @@ def build(al, layout, parts, n=""):
     f = al.f + n
     head, lead, tagoff, inline_after = "", 0, 0, True
     tagoffs = None
+    filtoff = 0
     if kind == "expr":
         if style == "code":
             main = "${" + py_br(j, parts) + "}"
@@ -162,7 +164,13 @@ def build(al, layout, parts, n=""):
     elif kind == "exprf":
         main = "${" + py_br(j, parts) + " | h}"
     elif kind == "filtarg":
-        main = "${x | " + f + "(" + py_br(j, parts) + ")}"
+        if style == "code":
+            main = "${x | " + f + "(" + py_br(j, parts) + ")}"
+        elif style == "nlbefore":  # line break inside the expression, before the '|'
+            main = "${x" + "\n" * j + " | " + f + "(" + py_br(0, parts) + ")}"
+        else:  # line break(s) between the '|' and the filter
+            main = "${x |" + "\n" * j + " " + f + "(" + py_br(0, parts) + ")}"
+            filtoff = j
     elif kind in ("if", "elif", "for", "while"):
         c = py_ctl(j, parts)
         inline_after = False
@@ -215,14 +223,14 @@ def build(al, layout, parts, n=""):
             main = op + "\n" + extra + "\n" + attr + close
     else:
         raise ValueError(kind)
-    return {"head": head, "main": main, "inline_after": inline_after, "lead": lead, "tagoff": tagoff, "tagoffs": tagoffs or [tagoff] * len(parts)}
+    return {"head": head, "main": main, "inline_after": inline_after, "lead": lead, "tagoff": tagoff, "tagoffs": tagoffs or [tagoff] * len(parts), "filtoff": filtoff}
 
 
 def construct(al, enc, layout, form, base="", n=""):
     parts, calls = make_parts(al, enc, form, base)
     c = build(al, layout, parts, n)
     for k in calls:
-        k.update(kind=layout[0], style=layout[1], lead=c["lead"], tagoff=c["tagoffs"][k.pop("part")])
+        k.update(kind=layout[0], style=layout[1], lead=c["lead"], tagoff=c["tagoffs"][k.pop("part")], filtoff=c["filtoff"])
     c["calls"] = calls
     c["layout"] = layout
     c["form"] = form
@@ -305,7 +313,7 @@ def container(al, enc, name):
         return [], [], []
     o = al.f + "o"
     wsrc, wval = al.msg(enc, "w1")
-    wcall = {"func": "_", "msgs": [wval], "text": "_('" + wsrc + "')", "lead": 0, "tagoff": 0, "style": "code", "role": "container"}
+    wcall = {"func": "_", "msgs": [wval], "text": "_('" + wsrc + "')", "lead": 0, "tagoff": 0, "filtoff": 0, "style": "code", "role": "container"}
     if name == "def":
         return ['<%def name="' + o + '()">'], ["</%def>"], []
     if name == "defmsg":
@@ -344,7 +352,7 @@ def finish_doc(text, eol, planted, decoys, desc):
         i = text.find(src)
         if i < 0 or text.find(src, i + 1) >= 0:
             raise AssertionError("planter: call text not unique: %r in %r" % (src, text))
-        e = {k: p[k] for k in ("func", "msgs", "kind", "style", "lead", "tagoff")}
+        e = {k: p[k] for k in ("func", "msgs", "kind", "style", "lead", "tagoff", "filtoff")}
         e["line"] = text.count("\n", 0, i) + 1
         e["req"] = p.get("req", [])
         e["opt"] = p.get("opt", [])
@@ -429,6 +437,8 @@ BABEL_MAIN = ["ascii", "utf-8", "cp1251", "latin-1"]
 BABEL_EXTRA = {
     "utf-8/no-option": ("utf-8", "bytes", {}),
     "utf-8/input_encoding": ("utf-8", "bytes", {"input_encoding": "utf-8"}),
+    "cp1251/input_encoding": ("cp1251", "bytes", {"input_encoding": "cp1251"}),
+    "latin-1/input_encoding": ("latin-1", "bytes", {"input_encoding": "latin-1"}),
     "utf-8/bom": ("utf-8", "bom", {}),
     "utf-8/str": ("utf-8", "str", {}),
     "utf-8/str+latin-1-option": ("utf-8", "str", {"encoding": "latin-1"}),
@@ -536,7 +546,9 @@ def judge(case, obs):
     viol = []
     if isinstance(obs, dict):
         kinds = sorted({e["kind"] for e in exp}) or ["-"]
-        if ext == "lingua" and case["cfg"]["transport"] == "file" and obs["exception"].startswith("Unicode"):
+        if ext == "babel" and cfgname.endswith("/input_encoding") and obs["exception"].startswith("Unicode"):
+            sig = "babel:input_encoding-option:%s (code is re-encoded in input_encoding, Babel is not told and decodes UTF-8)" % obs["exception"]
+        elif ext == "lingua" and case["cfg"]["transport"] == "file" and obs["exception"].startswith("Unicode"):
             sig = "lingua:file-encoding:%s (file opened in the locale's encoding, 'encoding' setting ignored)" % obs["exception"]
         else:
             sig = "%s:exception:%s:%s" % (ext, obs["exception"], "+".join(kinds))
@@ -563,16 +575,18 @@ def judge(case, obs):
         if o[0] != e["line"]:
             d = o[0] - e["line"]
             lead, tagoff = e["lead"], e["tagoff"]
-            if tagoff and d == -tagoff:
+            if e["filtoff"] and d == -e["filtoff"]:
+                sig = "%s:line:filter-after-line-break (line breaks between '|' and the filter are dropped)" % ext
+            elif tagoff and d == -tagoff:
                 sig = "%s:line:tag-attribute-on-later-line (reported at the line of '<%%tag')" % ext
-            elif ext == "lingua" and tagoff == 0 and lead == 0 and d == -1:
+            elif ext == "lingua" and e["filtoff"] == 0 and tagoff == 0 and lead == 0 and d == -1:
                 sig = "lingua:line:delta=-1"
-            elif ext == "lingua" and tagoff == 0 and lead > 0 and d == -1 - lead:
+            elif ext == "lingua" and e["filtoff"] == 0 and tagoff == 0 and lead > 0 and d == -1 - lead:
                 sig = "lingua:line:delta=-1-lead (blank lines at the head of the code are stripped)"
             elif ext == "lingua" and tagoff and d == -1 - tagoff:
                 sig = "lingua:line:tag-attribute-on-later-line+delta=-1"
             else:
-                sig = "%s:line:%s:delta=%+d:lead=%d:tagoff=%d" % (ext, where, d, lead, tagoff)
+                sig = "%s:line:%s:delta=%+d:lead=%d:tagoff=%d:filtoff=%d" % (ext, where, d, lead, tagoff, e["filtoff"])
             viol.append((sig, "template line on which the call is written", e["line"], o[0]))
         # translator comments
         if e["anycomment"]:
@@ -636,16 +650,16 @@ def outcome_class(case, obs, viol):
 
 BOUNDS = {
     "quick": {
-        "G1 single construct, top level": "57 layouts (14 construct kinds x styles x call offset 0..2) x 5 gettext forms x P{0,1,3} x LF/CRLF x 11 comment arrangements x 6 decoy kinds; Babel in 4 source encodings, Lingua (file object) on the ascii and utf-8 spellings",
-        "G2 transport/configuration": "every layout x form x LF/CRLF x {none, imm} x {none, text} under 8 further Babel configurations and Lingua reading 4 encodings from a real file",
-        "G3 containers": "9 containers x every layout x forms {u, 2l} x LF/CRLF x 11 arrangements (+ comment before the container) x decoys {none, text}",
+        "G1 single construct, top level": "60 layouts (14 construct kinds x styles x call offset 0..2) x gettext forms {u, n, 2, 2l} x P{0,1,3} x LF/CRLF x 11 comment arrangements x 6 decoy kinds in utf-8 (Babel and Lingua via file object); the same with one decoy kind in ascii, cp1251, latin-1 (Babel); form g with P=1 and one decoy kind",
+        "G2 transport/configuration": "every layout x form x LF/CRLF x {none, imm} x {none, text} under 10 further Babel configurations and Lingua reading 4 encodings from a real file",
+        "G3 containers": "9 containers x every layout x forms {u, 2l} x LF/CRLF x 11 arrangements (+ comment before the container), text decoys",
         "G4 pairs": "all ordered pairs of the 14 kinds (canonical layout), message/dummy x separators {next line, same line, blank line} x comment {none, before 1st, before 2nd}",
     },
     "thorough": {
-        "G1 single construct, top level": "as quick",
+        "G1 single construct, top level": "60 layouts x 5 forms x P{0,1,3} x LF/CRLF x 11 arrangements x 6 decoys x 4 encodings (Babel), Lingua on the ascii and utf-8 spellings",
         "G2 transport/configuration": "as quick, all 11 arrangements and 6 decoys",
         "G3 containers": "9 containers x every layout x all 5 forms x P{0,1} x LF/CRLF x 11 arrangements (+ comment before the container) x 6 decoys, in utf-8 and cp1251",
-        "G4 pairs": "all ordered pairs of the 57 layouts, forms {u, 2} / dummy, 3 separators, 3 comment positions, LF/CRLF",
+        "G4 pairs": "all ordered pairs of the 60 layouts, forms {u, 2} / dummy, 3 separators, 3 comment positions, LF/CRLF",
         "G5 triples": "all ordered triples of the 14 kinds (canonical layout), separators {next line, same line}, comment {none, before 1st, 2nd, 3rd}, each construct message/dummy",
     },
 }
@@ -677,7 +691,11 @@ def gen_unit(unit, tier, al):
             cons = construct(al, enc, layout, form)
             # quick: the decoy kinds are crossed with everything in utf-8, the other encodings carry one decoy kind
             decs = DECOYS if (enc == "utf-8" or tier != "quick") else ("text",)
-            for P in (0, 1, 3):
+            # quick: gettext('m') differs from _('m') by the function name only: one P, one decoy kind
+            slim = tier == "quick" and form == "g"
+            if slim:
+                decs = ("text",)
+            for P in ((1,) if slim else (0, 1, 3)):
                 for eol in ("lf", "crlf"):
                     for arr in ARRANGEMENTS:
                         for dec in decs:
@@ -715,7 +733,7 @@ def gen_unit(unit, tier, al):
         _, li, cont = unit
         layout = LAYOUTS[li]
         if tier == "quick":
-            forms, Ps, decs, encs = ("u", "2l"), (1,), ("none", "text"), ("utf-8",)
+            forms, Ps, decs, encs = ("u", "2l"), (1,), ("text",), ("utf-8",)
         else:
             forms, Ps, decs, encs = FORMS, (0, 1), DECOYS, ("utf-8", "cp1251")
         for enc in encs:
@@ -944,8 +962,8 @@ ASSUMPTIONS = [
     "CPython str/codecs are trusted for producing the source bytes",
 ]
 LEVEL_TEXT = (
-    "Every template of the bounded grid (14 construct kinds in 57 layouts, 5 gettext forms, call on line 0..2 of the construct, 0/1/3 lines before, "
-    "LF/CRLF, 11 translator-comment arrangements, 6 decoy kinds, 4 source encodings plus 8 further transports/options, 9 containers, all ordered pairs "
+    "Every template of the bounded grid (14 construct kinds in 60 layouts, 5 gettext forms, call on line 0..2 of the construct, 0/1/3 lines before, "
+    "LF/CRLF, 11 translator-comment arrangements, 6 decoy kinds, 4 source encodings plus 10 further transports/options, 9 containers, all ordered pairs "
     "(thorough: triples) of constructs) is extracted by the real Babel and Lingua plugins and compared message by message, line by line, comment by "
     "comment with the planter's knowledge.  Complete within those bounds; no sampling."
 )
